@@ -1004,9 +1004,12 @@ static int write_char(void *context, cif_value_tp *char_value, int allow_text) {
                         /*
                          * When folding, the text starts on the line after the fold marker; if it starts with a
                          * semicolon then it must be prefixed, too, lest that semicolon close the text block.
+                         * Likewise, an unprefixed line cannot be folded directly before a semicolon, so a run of
+                         * semicolons as long as the longest folded segment leaves no place to fold unless prefixed.
                          */
                         result = write_text(context, text, analysis.length, fold,
-                                analysis.contains_text_delim || (fold && (text[0] == UCHAR_SEMI)));
+                                analysis.contains_text_delim || (fold && ((text[0] == UCHAR_SEMI)
+                                        || (analysis.max_semi_run >= (LINE_LENGTH(context) - 8 + FOLDING_WINDOW)))));
                     }
                     break;
                 default: /* unexpected value */
